@@ -2,17 +2,37 @@
 """C19 implementation runner (runs in /venv with PYTHONPATH=<repo>/src).
 
 stdin : {"cases": [CASE, ...]}
-  CASE (plateau) = {"kind": "plateau", "coord": "float"|"int"|"datetime",
-                    "x": [hex-float strings | ints (int64 values / datetime64[ns] ticks)],
-                    "y": [hex-float strings], "ydtype": "float64"|"int64",
+  CASE (plateau) = {"kind": "plateau", "coord": "float"|"float32"|"int"|"datetime",
+                    "x": [hex-float strings (float32: the exact value) | ints (int64 values / datetime64[ns] ticks)],
+                    "y": [hex-float strings], "ydtype": "float64"|"float32"|"int64",
                     "atol": hex-float, "min_n": int}
-  CASE (phase)   = {"kind": "phase", "f": [hex-float], "ref": hex-float, "rtol": hex-float}
+  CASE (phase)   = {"kind": "phase", "f": [hex-float], "fdtype": "float64"|"float32"|"int64",
+                    "ref": hex-float, "rtol": hex-float}
+  CASE (history) = {"kind": "history", "objects": [OBJ, ...], "steps": [STEP, ...]}
+      OBJ  = the series part of a plateau case (coord, x, y, ydtype) or of a phase case (kind "phase", f, fdtype);
+             every OBJ becomes ONE DataArray object that lives as long as the history
+      STEP = {"op": "find", "obj": k, "atol": hex, "min_n": n}     find_plateaus(obj_k) (+ collapse of the result);
+                                                                   the result is remembered as plateaus_k
+             {"op": "set", "obj": k, "how": "values" (da.values[lo:lo+len] = y) | "data" (da.data = new variable)
+                                         | "data_values" (da.data.values[lo:..] = y) | "coord" (da.coords['t'] = new variable)
+                                         | "coord_values" (da.coords['t'].values[lo:..] = x), "lo": i, "y" / "x": [...]}
+             {"op": "pset", "obj": k, "how": "scale_data" (plateaus_k.bins.data *= 2) | "shift_coord" (bins.coords['t'] += c)
+                                          | "event_value" (plateaus_k[bin].value.values[j] = v)
+                                          | "event_coord" (plateaus_k[bin].value.coords['t'].values[j] = c), ...}
+             {"op": "collapse", "obj": k}                          collapse_plateaus(plateaus_k) again
+             {"op": "phase", "obj": k, "ref": hex, "rtol": hex}    filter_in_phase(obj_k)
+      The SAME Python objects are passed to the package on every step; nothing else calls the package in between.
+      After the last step every find / collapse / phase step is repeated on the deep copy of its argument that was
+      taken just before the call ("fresh": the answer on a fresh object with the same content).
 stdout: 'RESULT <json>' with, per case,
   plateau: {"error": <exception class>, "msg": ...}  or
            {"bins": [[ [x, y], ... ] per plateau], "begin_end": [[b, e], ...] (positions in scipp's bin buffer),
             "plateau_coord": [...], "collapsed": [[mean, low, high], ...] | {"error": cls}}
            (x: hex-float or int, y/mean: hex-float; low/high like x)
   phase:   {"kept": [[index, hex-float], ...]}  or {"error": cls}
+  history: {"steps": [null (set / pset) | plateau result + {"x", "y": content of the object at the call, "fresh_same": bool,
+                      "fresh": result on the copy when different} | {"bins" (content of plateaus_k at the call), "collapsed",
+                      "input_unchanged", "fresh_same"} | phase result + {"f": content at the call, "fresh_same"}]}
 The index of a kept element is read from a coordinate that travels with the element.
 """
 import json
@@ -28,70 +48,223 @@ def fh(v):
     return float(v).hex()
 
 
-def run_plateau(c):
-    kind = c['coord']
-    y = np.array([float.fromhex(v) for v in c['y']], dtype='float64')
-    if c.get('ydtype') == 'int64':
-        y = y.astype('int64')
-    data = sc.array(dims=['t'], values=y, unit='Hz')
-    if kind == 'float':
-        x = sc.array(dims=['t'], values=np.array([float.fromhex(v) for v in c['x']], dtype='float64'), unit='s')
-        aunit = 'Hz/s'
-    elif kind == 'int':
-        x = sc.array(dims=['t'], values=np.array(c['x'], dtype='int64'), unit='s')
-        aunit = 'Hz/s'
-    else:
-        x = sc.datetimes(dims=['t'], values=np.array(c['x'], dtype='int64').astype('datetime64[ns]'), unit='ns')
-        aunit = 'Hz/ns'
-    da = sc.DataArray(data, coords={'t': x})
-    x_before = da.coords['t'].values.copy()
-    y_before = da.values.copy()
-    try:
-        p = find_plateaus(da, atol=sc.scalar(float.fromhex(c['atol']), unit=aunit), min_n_points=int(c['min_n']))
-    except Exception as ex:  # the class is the observation
-        return {'error': type(ex).__name__, 'msg': str(ex)[:200]}
-    out = {}
+def cx_of(kind):
+    if kind in ('float', 'float32'):
+        return fh
+    return lambda v: int(np.asarray(v).astype('int64'))
 
-    def cx(v):
-        if kind == 'float':
-            return fh(v)
-        return int(np.asarray(v).astype('int64'))
+
+def coord_var(kind, x):
+    if kind == 'float':
+        return sc.array(dims=['t'], values=np.array([float.fromhex(v) for v in x], dtype='float64'), unit='s')
+    if kind == 'float32':
+        return sc.array(dims=['t'], values=np.array([float.fromhex(v) for v in x], dtype='float64').astype('float32'),
+                        unit='s')
+    if kind == 'int':
+        return sc.array(dims=['t'], values=np.array(x, dtype='int64'), unit='s')
+    return sc.datetimes(dims=['t'], values=np.array(x, dtype='int64').astype('datetime64[ns]'), unit='ns')
+
+
+def coord_elems(kind, x):
+    """numpy values to be written into an existing coordinate"""
+    if kind in ('float', 'float32'):
+        return np.array([float.fromhex(v) for v in x], dtype='float64').astype('float64' if kind == 'float' else 'float32')
+    if kind == 'int':
+        return np.array(x, dtype='int64')
+    return np.array(x, dtype='int64').astype('datetime64[ns]')
+
+
+def data_elems(ydtype, y):
+    return np.array([float.fromhex(v) for v in y], dtype='float64').astype(ydtype or 'float64')
+
+
+def data_var(ydtype, y):
+    return sc.array(dims=['t'], values=data_elems(ydtype, y), unit='Hz')
+
+
+def atol_unit(kind):
+    return 'Hz/ns' if kind == 'datetime' else 'Hz/s'
+
+
+def make_da(c):
+    return sc.DataArray(data_var(c.get('ydtype'), c['y']), coords={'t': coord_var(c['coord'], c['x'])})
+
+
+def bins_content(p, kind):
+    cx = cx_of(kind)
     bins = []
     for b in p:                       # what a user sees: the content of each plateau bin
         bv = b.value
-        xs = bv.coords['t'].values
-        ys = bv.values
-        bins.append([[cx(a), fh(v)] for a, v in zip(xs, ys)])
-    out['bins'] = bins
-    cons = p.bins.constituents
-    out['begin_end'] = [[int(a), int(b)] for a, b in zip(cons['begin'].values, cons['end'].values)]
-    out['plateau_coord'] = [int(v) for v in p.coords['plateau'].values]
-    out['dims'] = list(p.dims)
-    out['input_unchanged'] = bool(np.array_equal(da.coords['t'].values, x_before)
-                                  and np.array_equal(da.values, y_before))
+        bins.append([[cx(a), fh(v)] for a, v in zip(bv.coords['t'].values, bv.values)])
+    return bins
+
+
+def observe_collapse(p, kind):
+    cx = cx_of(kind)
     try:
         col = collapse_plateaus(p, coord='t')
         edges = col.coords['t'].values
         means = col.values
-        out['collapsed'] = [[fh(m), cx(e[0]), cx(e[1])] for m, e in zip(means, edges)]
-        out['collapsed_dims'] = list(col.coords['t'].dims)
+        return {'collapsed': [[fh(m), cx(e[0]), cx(e[1])] for m, e in zip(means, edges)],
+                'collapsed_dims': list(col.coords['t'].dims),
+                'collapsed_dtypes': [str(col.dtype), str(col.coords['t'].dtype)]}
     except Exception as ex:
-        out['collapsed'] = {'error': type(ex).__name__, 'msg': str(ex)[:200]}
-    return out
+        return {'collapsed': {'error': type(ex).__name__, 'msg': str(ex)[:200]}}
 
 
-def run_phase(c):
-    f = np.array([float.fromhex(v) for v in c['f']], dtype='float64')
-    da = sc.DataArray(sc.array(dims=['t'], values=f, unit='Hz'),
-                      coords={'t': sc.arange('t', len(f), unit='s'),
-                              'idx': sc.arange('t', len(f), unit=None)})
+def observe_find(da, kind, atol, min_n):
+    """find_plateaus + collapse of its result; returns (observation, plateaus or None)"""
+    x_before = da.coords['t'].values.copy()
+    y_before = da.values.copy()
     try:
-        r = filter_in_phase(da, reference=sc.scalar(float.fromhex(c['ref']), unit='Hz'),
-                            rtol=sc.scalar(float.fromhex(c['rtol'])))
+        p = find_plateaus(da, atol=sc.scalar(float.fromhex(atol), unit=atol_unit(kind)), min_n_points=int(min_n))
+    except Exception as ex:  # the class is the observation
+        return {'error': type(ex).__name__, 'msg': str(ex)[:200]}, None
+    out = {'bins': bins_content(p, kind)}
+    cons = p.bins.constituents
+    out['begin_end'] = [[int(a), int(b)] for a, b in zip(cons['begin'].values, cons['end'].values)]
+    out['plateau_coord'] = [int(v) for v in p.coords['plateau'].values]
+    out['dims'] = list(p.dims)
+    out['dtypes'] = [str(cons['data'].dtype), str(cons['data'].coords['t'].dtype)]
+    out['input_unchanged'] = bool(np.array_equal(da.coords['t'].values, x_before)
+                                  and np.array_equal(da.values, y_before))
+    out.update(observe_collapse(p, kind))
+    return out, p
+
+
+def run_plateau(c):
+    return observe_find(make_da(c), c['coord'], c['atol'], c['min_n'])[0]
+
+
+def make_phase(c):
+    f = np.array([float.fromhex(v) for v in c['f']], dtype='float64').astype(c.get('fdtype') or 'float64')
+    return sc.DataArray(sc.array(dims=['t'], values=f, unit='Hz'),
+                        coords={'t': sc.arange('t', len(f), unit='s'),
+                                'idx': sc.arange('t', len(f), unit=None)})
+
+
+def observe_phase(da, ref, rtol):
+    before = da.values.copy()
+    try:
+        r = filter_in_phase(da, reference=sc.scalar(float.fromhex(ref), unit='Hz'),
+                            rtol=sc.scalar(float.fromhex(rtol)))
     except Exception as ex:
         return {'error': type(ex).__name__, 'msg': str(ex)[:200]}
     return {'kept': [[int(i), fh(v)] for i, v in zip(r.coords['idx'].values, r.values)],
-            'time': [int(v) for v in r.coords['t'].values]}
+            'time': [int(v) for v in r.coords['t'].values], 'dtype': str(r.dtype),
+            'input_unchanged': bool(np.array_equal(da.values, before, equal_nan=True))}
+
+
+def run_phase(c):
+    return observe_phase(make_phase(c), c['ref'], c['rtol'])
+
+
+VOLATILE = ('msg',)
+
+
+def same_obs(a, b):
+    fa = {k: v for k, v in a.items() if k not in VOLATILE}
+    fb = {k: v for k, v in b.items() if k not in VOLATILE}
+    return json.dumps(fa, sort_keys=True) == json.dumps(fb, sort_keys=True)
+
+
+def run_history(c):
+    objs = c['objects']
+    das = [make_phase(o) if o.get('kind') == 'phase' else make_da(o) for o in objs]
+    plats = [None] * len(objs)
+    out = []
+    later = []                         # (step index, thunk on the deep copy taken before the call)
+    for st in c['steps']:
+        k = st['obj']
+        o = objs[k]
+        da = das[k]
+        op = st['op']
+        if op == 'find':
+            kind = o['coord']
+            cx = cx_of(kind)
+            snap = da.copy()
+            content = {'x': [cx(v) for v in da.coords['t'].values], 'y': [fh(v) for v in da.values],
+                       'ydtype_now': str(da.dtype), 'xdtype_now': str(da.coords['t'].dtype)}
+            obs, p = observe_find(da, kind, st['atol'], st['min_n'])
+            plats[k] = p
+            obs.update(content)
+            later.append((len(out), lambda snap=snap, kind=kind, st=st: observe_find(snap, kind, st['atol'], st['min_n'])[0]))
+            out.append(obs)
+        elif op == 'set':
+            how = st['how']
+            lo = st.get('lo', 0)
+            if how == 'values':
+                v = data_elems(str(da.dtype), st['y'])
+                da.values[lo:lo + len(v)] = v
+            elif how == 'data_values':
+                v = data_elems(str(da.dtype), st['y'])
+                da.data.values[lo:lo + len(v)] = v
+            elif how == 'data':
+                da.data = data_var(st.get('ydtype') or o.get('ydtype'), st['y'])
+            elif how == 'coord':
+                da.coords['t'] = coord_var(o['coord'], st['x'])
+            elif how == 'coord_values':
+                v = coord_elems(o['coord'], st['x'])
+                da.coords['t'].values[lo:lo + len(v)] = v
+            else:
+                raise ValueError(how)
+            out.append(None)
+        elif op == 'pset':
+            p = plats[k]
+            if p is None or len(p) == 0:
+                out.append({'skipped': True})
+                continue
+            kind = o['coord']
+            how = st['how']
+            if how == 'scale_data':
+                p.bins.data *= sc.scalar(2, dtype=p.bins.constituents['data'].dtype)
+            elif how == 'shift_coord':
+                if kind == 'datetime':
+                    p.bins.coords['t'] += sc.scalar(int(st['c']), unit='ns', dtype='int64')
+                elif kind == 'int':
+                    p.bins.coords['t'] += sc.scalar(int(st['c']), unit='s', dtype='int64')
+                else:
+                    p.bins.coords['t'] += sc.scalar(float.fromhex(st['c']), unit='s',
+                                                    dtype='float64' if kind == 'float' else 'float32')
+            elif how == 'event_value':
+                b = p[st['bin'] % len(p)].value
+                b.values[st['j'] % len(b)] = data_elems(str(b.dtype), [st['v']])[0]
+            elif how == 'event_coord':
+                b = p[st['bin'] % len(p)].value
+                b.coords['t'].values[st['j'] % len(b)] = coord_elems(kind, [st['c']])[0]
+            else:
+                raise ValueError(how)
+            out.append(None)
+        elif op == 'collapse':
+            p = plats[k]
+            if p is None:
+                out.append({'skipped': True})
+                continue
+            kind = o['coord']
+            snap = p.copy()
+            obs = {'bins': bins_content(p, kind), 'ydtype_now': str(p.bins.constituents['data'].dtype)}
+            obs.update(observe_collapse(p, kind))
+            obs['input_unchanged'] = bins_content(p, kind) == obs['bins']
+            later.append((len(out), lambda snap=snap, kind=kind: observe_collapse(snap, kind)))
+            out.append(obs)
+        elif op == 'phase':
+            snap = da.copy()
+            content = {'f': [fh(v) for v in da.values], 'fdtype_now': str(da.dtype)}
+            obs = observe_phase(da, st['ref'], st['rtol'])
+            obs.update(content)
+            later.append((len(out), lambda snap=snap, st=st: observe_phase(snap, st['ref'], st['rtol'])))
+            out.append(obs)
+        else:
+            raise ValueError(op)
+    for i, thunk in later:
+        fresh = thunk()
+        mine = {k: v for k, v in out[i].items() if k in fresh}
+        if same_obs(mine, fresh):
+            out[i]['fresh_same'] = True
+        else:
+            out[i]['fresh_same'] = False
+            out[i]['fresh'] = fresh
+    return {'steps': out}
 
 
 def main():
@@ -100,6 +273,8 @@ def main():
     for c in payload['cases']:
         if c['kind'] == 'plateau':
             res.append(run_plateau(c))
+        elif c['kind'] == 'history':
+            res.append(run_history(c))
         else:
             res.append(run_phase(c))
     print('RESULT ' + json.dumps({'cases': res, 'scipp': sc.__version__, 'numpy': np.__version__}))
